@@ -1672,6 +1672,17 @@ def fam_transparent(rng, n, tier, mode="exact"):
             if how not in ("drop",):
                 L += ["grad c", "samegrad a c"]
             cases.append(Case(L, ("trflagclone", how, leafhow), ["systematic", "flag-on-clone", how], mode))
+            # the same two passes without any clone: gradients must coincide with the program above
+            v3 = vals_s(gen_vals(rng, 3, mode), mode)
+            T = ["new a 3 %s" % v3, "%s a" % leafhow, "mul r a a", "backward r -", "clone c a"]
+            if how == "drop":
+                T.append("drop c")
+            elif how != "clone-only":
+                T.append("%s c" % how)
+            T += ["mul r2 a a", "backward r2 -",
+                  "new za 3 %s" % v3, "%s za" % leafhow, "mul zr za za", "backward zr -", "mul zr2 za za", "backward zr2 -",
+                  "samegrad a za", "same r2 zr2"]
+            cases.append(Case(T, ("trflagclone-twin", how, leafhow), ["systematic", "flag-on-clone", "twin", how], mode))
     # one handle on both sides of an operation, or a clone of it on one side: the same result
     for (fa, fb) in (("N", "T"), ("T", "N"), ("N", "N"), ("T", "T")):
         for cform in ("-", "bias", "full"):
@@ -1690,17 +1701,6 @@ def fam_transparent(rng, n, tier, mode="exact"):
                 if trk:
                     L += ["backward r -", "grad a"]
                 cases.append(Case(L, ("trsame", fa, fb, cform, trk), ["systematic", "same-handle-twice", "c=" + cform], mode))
-            # the same two passes without any clone: gradients must coincide with the program above
-            v3 = vals_s(gen_vals(rng, 3, mode), mode)
-            T = ["new a 3 %s" % v3, "%s a" % leafhow, "mul r a a", "backward r -", "clone c a"]
-            if how == "drop":
-                T.append("drop c")
-            elif how != "clone-only":
-                T.append("%s c" % how)
-            T += ["mul r2 a a", "backward r2 -",
-                  "new za 3 %s" % v3, "%s za" % leafhow, "mul zr za za", "backward zr -", "mul zr2 za za", "backward zr2 -",
-                  "samegrad a za", "same r2 zr2"]
-            cases.append(Case(T, ("trflagclone-twin", how, leafhow), ["systematic", "flag-on-clone", "twin", how], mode))
     for i in range(n):
         p = build_program(rng, mode, rng.randint(2, 10 if tier == "quick" else 16), flagops=(rng.random() < 0.6))
         root = rng.choice(sorted(p.inter & set(p.shape)) or p.names())
